@@ -227,6 +227,7 @@ func (k Keeper) EthCall(c context.Context, req *evmtypes.EthCallRequest) (*evmty
 
 	ctx := sdk.UnwrapSDKContext(c)
 	ctx = utils.UseZeroGasConfig(ctx)
+	ctx = k.withCleanTransientStore(ctx)
 
 	var args evmtypes.TransactionArgs
 	err := json.Unmarshal(req.Args, &args)
@@ -270,6 +271,25 @@ func (k Keeper) getProposerOfQueriedBlock(ctx sdk.Context) sdk.ConsAddress {
 	return historicalInfo.Header.ProposerAddress
 }
 
+// withCleanTransientStore returns a branch of the query context in which the module's transient store is empty.
+// The transient store is not versioned: between FinalizeBlock and Commit it still holds the bookkeeping of the block
+// in flight (tx count, per-tx gas and log counts, the flag telling that the sender paid the fee in the AnteHandle),
+// which must not leak into the result of a query. The branch is never written back.
+func (k Keeper) withCleanTransientStore(ctx sdk.Context) sdk.Context {
+	ctx, _ = ctx.CacheContext()
+	store := ctx.TransientStore(k.transientKey)
+	var keys [][]byte
+	iterator := store.Iterator(nil, nil)
+	for ; iterator.Valid(); iterator.Next() {
+		keys = append(keys, iterator.Key())
+	}
+	_ = iterator.Close()
+	for _, key := range keys {
+		store.Delete(key)
+	}
+	return ctx
+}
+
 // EstimateGas implements eth_estimateGas rpc api.
 func (k Keeper) EstimateGas(c context.Context, req *evmtypes.EthCallRequest) (*evmtypes.EstimateGasResponse, error) {
 	if req == nil {
@@ -278,6 +298,7 @@ func (k Keeper) EstimateGas(c context.Context, req *evmtypes.EthCallRequest) (*e
 
 	ctx := sdk.UnwrapSDKContext(c)
 	ctx = utils.UseZeroGasConfig(ctx)
+	ctx = k.withCleanTransientStore(ctx)
 
 	if req.GasCap < ethparams.TxGas {
 		return nil, status.Error(codes.InvalidArgument, "gas cap cannot be lower than 21,000")
@@ -417,6 +438,7 @@ func (k Keeper) TraceTx(c context.Context, req *evmtypes.QueryTraceTxRequest) (*
 	ctx = ctx.WithBlockTime(req.BlockTime)
 	ctx = ctx.WithHeaderHash(common.Hex2Bytes(req.BlockHash))
 	ctx = utils.UseZeroGasConfig(ctx)
+	ctx = k.withCleanTransientStore(ctx)
 
 	cfg, err := k.EVMConfig(ctx, req.ProposerAddress)
 	if err != nil {
@@ -507,6 +529,7 @@ func (k Keeper) TraceBlock(c context.Context, req *evmtypes.QueryTraceBlockReque
 	ctx = ctx.WithBlockTime(req.BlockTime)
 	ctx = ctx.WithHeaderHash(common.Hex2Bytes(req.BlockHash))
 	ctx = utils.UseZeroGasConfig(ctx)
+	ctx = k.withCleanTransientStore(ctx)
 
 	cfg, err := k.EVMConfig(ctx, req.ProposerAddress)
 	if err != nil {
